@@ -1041,7 +1041,7 @@ def run(ctx: Ctx, replay=None) -> int:
 # ---------------------------------------------------------------------------
 NATIVE = {
     "qulacs": ["I", "X", "Y", "Z", "H", "S", "Sdag", "T", "Tdag", "sqrtX", "sqrtXdag", "sqrtY", "sqrtYdag", "RX", "RY", "RZ", "U1", "U2", "U3",
-               "CNOT", "CZ", "SWAP", "TOFFOLI", "dense1", "dense2", "cdense", "ccx_dense", "pauli", "paulirot", "FREDKIN"],
+               "CNOT", "CZ", "SWAP", "TOFFOLI", "dense1", "dense2", "cdense", "ccx_dense", "pauli", "paulirot", "FREDKIN", "P0"],
     "qiskit": ["h", "x", "y", "z", "s", "sdg", "t", "tdg", "sx", "sxdg", "id", "rx", "ry", "rz", "p", "u", "u1", "u2", "u3", "cx", "cz", "swap",
                "ecr", "ccx", "unitary1", "unitary2", "unitary3", "cy", "ch", "crx", "rzz", "iswap", "ccz", "cswap"],
     "cirq": ["H", "X", "Y", "Z", "S", "T", "Sdag", "SqrtX", "SqrtXdag", "SqrtY", "Tdag", "rx", "ry", "rz", "CNOT", "CZ", "SWAP", "TOFFOLI",
@@ -1057,7 +1057,7 @@ ARITY3 = {"TOFFOLI", "ccx", "ccnot", "CCX", "ccx_dense", "unitary3", "ccz", "csw
 NPAR = {"RX": 1, "RY": 1, "RZ": 1, "U1": 1, "U2": 2, "U3": 3, "paulirot": 1, "rx": 1, "ry": 1, "rz": 1, "p": 1, "u": 3, "phaseshift": 1,
         "Rx": 1, "Ry": 1, "Rz": 1, "u1": 1, "u2": 2, "u3": 3, "crx": 1, "rzz": 1, "modifier:neg-control": 1}
 # native gates the reverse adapters do not take (reference tree): an error, as the property asks
-NATIVE_REJECTED = {"braket": {"iswap", "cy"}, "tket": {"CY"}, "qulacs": {"FREDKIN", "dense2"}}  # dense2: see note_once in judge()
+NATIVE_REJECTED = {"braket": {"iswap", "cy"}, "tket": {"CY"}, "qulacs": {"FREDKIN", "dense2", "P0"}}  # dense2: see note_once in judge()
 # argument values the reverse adapters branch on, tried on every run
 PINNED_NATIVE = {
     "braket": [("u", [0.0, 0.0, 0.7]), ("u", [0.0, 0.9, 0.7]), ("u", [0.0, 0.9, 0.0]), ("u", [math.pi / 2, 0.9, 0.7]), ("u", [math.pi / 2, 0.0, 0.0]),
@@ -1123,6 +1123,8 @@ def build_native(backend, n, specs):
                 c.add_gate(mg)
             elif g == "I":
                 c.add_gate(qulacs.gate.Identity(q[0]))
+            elif g == "P0":  # a projection: nothing quri-parts can express, the adapter has to refuse it
+                c.add_gate(qulacs.gate.P0(q[0]))
             elif g == "pauli":
                 c.add_multi_Pauli_gate([q[0], q[1]], extra)
             elif g == "paulirot":
